@@ -1435,7 +1435,11 @@ impl platform::Platform for Elf {
 
         if flags.needs_got_tls_offset() {
             mem_sizes.increment(part_id::GOT, elf::GOT_ENTRY_SIZE);
-            if flags.is_interposable() || output_kind.is_shared_object() {
+            // An undefined weak TLS symbol that isn't in the dynamic symbol table resolves to 0 and
+            // gets no relocation when we write its GOT entry.
+            if flags.is_interposable()
+                || (output_kind.is_shared_object() && !flags.is_absolute())
+            {
                 mem_sizes.increment(part_id::RELA_DYN_GENERAL, elf::RELA_ENTRY_SIZE);
             }
         }
